@@ -294,6 +294,12 @@ func (t *c04Trial) execute() {
 	sp := t.sp
 	rng := rand.New(rand.NewSource(sp.Seed))
 	t.units = c04Units(rng)
+	if sp.LateKill {
+		// the long units first: their runners rewrite the status often enough to reach the late kill point
+		sort.SliceStable(t.units, func(i, j int) bool {
+			return strings.HasPrefix(t.units[i].Label, "local-long") && !strings.HasPrefix(t.units[j].Label, "local-long")
+		})
+	}
 	t.ptLog = filepath.Join(t.dir, "points.log")
 	t.stopDrv = make(chan struct{})
 	genw := []ctl.WorkCmd{genWork()}
@@ -854,9 +860,9 @@ func runC04(tier string, args []string) {
 	// a runner of the first daemon generation dies only after the daemon has been killed and restarted, i.e. while
 	// the restarted daemon is following it: the script ends when a runner is six status rewrites (a second and a half)
 	// short of its kill point
-	lateKs := []int{10, 12}
+	lateKs := []int{9, 11}
 	if !run.Quick() {
-		lateKs = []int{7, 8, 9, 10, 11, 12, 13, 14}
+		lateKs = []int{7, 8, 9, 10, 11, 8, 9, 10}
 	}
 	for i, k := range lateKs {
 		specs = append(specs, &c04Spec{Idx: len(specs), Crashes: []c04Crash{{Role: "runner", Point: []string{"upd.truncated", "upd.written", "upd.loaded", "runner.tick"}[i%4], K: k}}, Seed: rng.Int63(), LateKill: true})
